@@ -24,6 +24,8 @@ Drain == [op |-> "drain"]
 TcpHistory(n, w, chop) ==
   (IF w = <<>> THEN <<>> ELSE <<[op |-> "wscript", default |-> 1, script |-> [i \in 1..Len(w) |-> IF w[i] = 0 THEN -1 ELSE w[i]]]>>)
   \o Queries(1, n) \o <<Drain>> \o chop \o Replies(1, n) \o <<Drain>>
+TcpHistoryClose(n, chop) ==
+  Queries(1, n) \o <<Drain>> \o chop \o Replies(1, n) \o <<[op |-> "peerclose"], Drain>>
 (* UDP: truncated answer then the TCP retry; empty datagram then the real answer *)
 UdpHistories ==
   { <<Q(1), [op |-> "reply", tx |-> "name:n1.", kind |-> "tc"], Drain, [op |-> "reply", tx |-> "name:n1.", kind |-> "ok"], Drain>>,
@@ -38,8 +40,18 @@ UdpHistories ==
     <<Q(1), Q(2), [op |-> "reply", tx |-> "name:n1.", kind |-> "tc"], [op |-> "reply", tx |-> "name:n2.", kind |-> "ok"], Drain,
       [op |-> "reply", tx |-> "name:n1.", kind |-> "ok"], Drain>> }
 
+(* the server answers and closes the stream: the answers and the end of stream are visible to the same readable event *)
+CloseHistories ==
+  {TcpHistoryClose(n, chop) : n \in Batch, chop \in {<<>>} \cup {<<[op |-> "chunking", size |-> c]>> : c \in ChunkSizes}}
+(* UDP transmissions that would block: the datagram stays queued, further requests are written to the same socket *)
+UdpBlockHistories ==
+  {<<[op |-> "wscript", udp |-> 1, default |-> 1, script |-> [i \in 1..k |-> -1]]>> \o Queries(1, n) \o <<Drain>>
+      \o [i \in 1..n |-> [op |-> "reply", tx |-> "name:n" \o ToString(i) \o ".", kind |-> "ok"]] \o <<Drain>>
+      : k \in 1..2, n \in 1..3}
+
 Histories ==
-  IF Mode = "udp" THEN UdpHistories
+  IF Mode = "udp" THEN UdpHistories \cup UdpBlockHistories
+  ELSE IF Mode = "tcpclose" THEN CloseHistories
   ELSE LET Ws == SeqsUpTo(WAlpha, WLen)
            Chops == {<<>>} \cup {<<[op |-> "chunking", size |-> c]>> : c \in ChunkSizes}
                           \cup {<<[op |-> "chunking", size |-> 1000], [op |-> "splitat", at |-> p]>> : p \in 1..SplitMax}
